@@ -40,7 +40,7 @@ NAMES3 = ('a', 'b', 'c')
 OWN_NAMES = True     # replays of this module spell their own names
 
 
-HIST_ALPHA = {'bad': (1, [53, 65535, 65535]), 'full': 2,
+HIST_ALPHA = {'bad': (1, [54, 65535, 65535]), 'full': 2,
               'build': 8, 'to_expr': 16, 'add_expr': 12, 'repeat': 6,
               'churn': 5, 'drop': 8, 'gc': 6, 'gc_roots': 2, 'swap': 3,
               'sift': 1, 'reorder_to': 1, 'apply': 3, 'declare': 1,
